@@ -61,10 +61,14 @@ def parseStrictId (b : Bytes) (missing : Nat) : Option StreamId :=
   | (m, none) => (parseU64 m).map fun ms => ⟨ms, missing⟩
   | (m, some s) => match parseU64 m, parseU64 s with | some ms, some q => some ⟨ms, q⟩ | _, _ => none
 
-/-- an interval bound of XRANGE: `(exclusive, id)`; `-` = 0-0, `+` = max-max, `(id` = exclusive -/
+/-- an interval bound of XRANGE: `(exclusive, id)`; `-` = 0-0, `+` = max-max, `(id` = exclusive (also `(-` and `(+`) -/
 def parseBound (b : Bytes) (missing : Nat) : Option (Bool × StreamId) :=
   match b with
-  | 40 :: r => if r.isEmpty then none else (parseStrictId r missing).map fun i => (true, i)
+  | 40 :: r =>
+    if r.isEmpty then none
+    else if r == [45] then some (true, idZero)
+    else if r == [43] then some (true, idMax)
+    else (parseStrictId r missing).map fun i => (true, i)
   | _ =>
     if b == [45] then some (false, idZero)
     else if b == [43] then some (false, idMax)
